@@ -31,6 +31,7 @@ class Obligation:
     where: str = ""  # file:line, for diagnosis only (never used as a key)
     trace: list | None = None
     nontrivial: bool = True
+    undecided: bool = False
 
 
 class Ctx:
@@ -70,6 +71,14 @@ class Ctx:
         else:
             self.fail(rule, construct, what_fail, where, trace)
         return cond
+
+    def undecided(self, rule: str, construct: str, why: str, where: str = ""):
+        """The idiom this rule knows how to judge is not present (the code was restructured).  Nothing is claimed about
+        the construct: no alarm (an unrecognised shape is not a deviation), but the run says so and the evidence
+        counts it.  Use only when the *anchor idiom* is absent - a recognised idiom with a wrong detail is a failure."""
+        o = Obligation(rule, construct, True, "UNDECIDED: " + why, where, None, False)
+        o.undecided = True
+        self.obligations.append(o)
 
     def assume(self, text: str) -> None:
         if text not in self.assumptions:
@@ -134,6 +143,9 @@ def finish(ctx: Ctx, t0: float, level: str = "other", write_evidence: bool = Tru
     for k in stale:
         # an open finding that no longer reproduces is only a note (it suppresses nothing else)
         print(f"NOTE: listed finding no longer reported: rule={k['rule']} construct={k['construct']}")
+    for o in ctx.obligations:
+        if o.undecided:
+            print(f"NOTE: undecided rule={o.rule} construct={o.construct} :: {o.what[11:][:200]}")
     rc = 0
     replay_dir = VERIF / "replay" / ctx.prop
     for o in new:
@@ -193,7 +205,7 @@ def write_evidence_file(ctx: Ctx, t0: float, level: str, n_new: int, n_known: in
         "explanation": "static analysis of /repo source (ast / grammar loader / sympy MRO tables); rules applied: "
         + "; ".join(f"{k}: {v}" for k, v in ctx.rules_applied.items()),
         "obligations": len(obs),
-        "discharged": sum(1 for o in obs if o.ok),
+        "discharged": sum(1 for o in obs if o.ok and not o.undecided),
         "evaluations": len(obs),
         "distinct_nontrivial": len(distinct),
         "rule": "one obligation per (rule, construct) instance found in the current source; non-trivial = the construct "
@@ -204,6 +216,7 @@ def write_evidence_file(ctx: Ctx, t0: float, level: str, n_new: int, n_known: in
         "modules_parsed": len(ctx.sm.modules) if ctx.sm else 0,
         "functions_parsed": ctx.sm.n_functions if ctx.sm else 0,
         "known_findings_matched": n_known,
+        "undecided": [{"rule": o.rule, "construct": o.construct, "why": o.what[11:]} for o in obs if o.undecided],
         "notes": ctx.notes,
         "exhaustive": True,
     }
